@@ -92,7 +92,7 @@ def generate(rng, tier):
     if kind == "schema" and rng.random() < 0.25:
         # a typed @property: its value is computed from a payload and converted to the declared type after the fields
         pt = tdsl.gen_scalar(rng, rule_leaves=RL)
-        plan["pprop"] = {"type": pt, "value": tdsl.gen_value(rng, pt, pool, positions, ("pr",)), "hook": rng.random() < 0.5}
+        plan["pprop"] = {"type": pt, "value": tdsl.gen_value(rng, pt, pool, positions, ("pr",)), "hook": rng.random() < 0.5, "second": rng.random() < 0.4}
     if kind == "func":
         plan["addition"] = rng.choice([None, "leaf"])   # **kwargs: Leaf or none
         # the type of the surplus positional values: a harness leaf or a constrained (Rule) leaf
@@ -165,6 +165,15 @@ def build(plan, collect, faulted=True):
                 return tdsl.build_value(pv)
             pr.__annotations__ = {"return": PT}
             ns["pr"] = property(pr)
+            if plan["pprop"].get("second"):
+                # a second property, declared to throw, whose getter reads the first one: it is fine whenever pr is
+                from utype import Field as _F
+
+                def pr2(self) -> int:
+                    self.pr
+                    return 1
+                pr2.__annotations__ = {"return": int}
+                ns["pr2"] = property(_F(on_error="throw")(pr2))
             if plan["pprop"].get("hook"):
                 # the user's __validate__ reads the property: it only ever runs on an instance that parsed
                 def __validate__(self):
